@@ -101,7 +101,7 @@ int main(int argc, char **argv)
 	fresh();
 	while (vt_readline(f, &L)) {
 		const char *op = L.tok[0];
-		long long a1 = vt_argi(&L, 1), a2 = vt_argi(&L, 2), a3 = vt_argi(&L, 3), a4 = vt_argi(&L, 4);
+		long long a1 = vt_argi(&L, 1), a2 = vt_argi(&L, 2), a3 = vt_argi(&L, 3), a4 = vt_argi(&L, 4), a5 = vt_argi(&L, 5);
 		ncalls = 0;
 		int g = kf_skip && ghosty && any_ghost();
 		if (!strcmp(op, "Reset")) {
@@ -152,14 +152,19 @@ int main(int argc, char **argv)
 			vt_ev(op); vt_i(a1); vt_i(a2); vt_res(); vt_lb();
 			for (int i = 0; i < ntrav; i++) { vt_lb(); vt_i(trav[i][0]); vt_i(trav[i][1]); vt_le(); }
 			vt_le(); end_ev();
-		} else if (!strcmp(op, "NotifyAdd") || !strcmp(op, "NotifyDel")) {
+		} else if (!strcmp(op, "NotifyAdd") || !strcmp(op, "NotifyDel") || !strcmp(op, "NotifyDelAny")) {
+			/* a5 = user-data tag: the same callback and events registered once per tag; NotifyDel = qb_map_notify_del_2
+			 * (that tag only), NotifyDelAny = qb_map_notify_del (whatever the user data) */
 			if (g && a1 && ghost[a1]) continue;
 			int events = (int)a2 | (a3 ? QB_MAP_NOTIFY_RECURSIVE : 0) | (a4 ? QB_MAP_NOTIFY_FREE : 0);
-			long long ud = a1 * 1000 + a2 * 10 + (a3 ? 1 : 0) + (a4 ? 5 : 0);
+			int any = !strcmp(op, "NotifyDelAny");
+			if (any || a5 < 0) a5 = 0;
+			long long ud = a1 * 1000 + a5 * 100 + a2 * 10 + (a3 ? 1 : 0) + (a4 ? 5 : 0);
 			int rc = !strcmp(op, "NotifyAdd")
 				? qb_map_notify_add(m, a1 ? keys[a1] : NULL, notify_cb, events, (void *)(intptr_t)ud)
+				: any ? qb_map_notify_del(m, a1 ? keys[a1] : NULL, notify_cb, events)
 				: qb_map_notify_del_2(m, a1 ? keys[a1] : NULL, notify_cb, events, (void *)(intptr_t)ud);
-			vt_ev(op); vt_i(a1); vt_i(a2); vt_i(a3); vt_i(a4); vt_res(); vt_i(rc); end_ev();
+			vt_ev(op); vt_i(a1); vt_i(a2); vt_i(a3); vt_i(a4); if (!any) vt_i(a5); vt_res(); vt_i(rc); end_ev();
 		} else if (!strcmp(op, "Destroy")) {
 			int open = 0; for (int i = 1; i <= MAXIT; i++) if (its[i]) open = 1;
 			if (open) continue;
